@@ -31,6 +31,14 @@ static void op(long c, long, vh::Tok& t)
     size_t n; unsigned char* d = vh::unhex(t.v[1], n);
     sha->update(d, n); free(d);
     printf("-");
+  } else if(!strcmp(t.v[0], "updrep") || !strcmp(t.v[0], "updrepx")) {
+    // streaming: the same chunk absorbed <times> times (long messages without long op lines;
+    // updrepx = the same call, but model and spec do not predict it - judged by python hashlib)
+    size_t n; unsigned char* d = vh::unhex(t.v[1], n);
+    unsigned long long times = strtoull(t.v[2], 0, 10);
+    for(unsigned long long r = 0; r < times; ++r) sha->update(d, n);
+    free(d);
+    printf("-");
   } else if(!strcmp(t.v[0], "fin")) {
     byte dig[Sha256::digestSize];
     sha->finalize(dig);
